@@ -17,16 +17,12 @@ Local Open Scope Z_scope.
 Theorem C10_invariant :
   forall (D L P : Type) (gen : D -> L) enc decode life,
     (forall l, decode (enc l) = Some l) ->
-  forall rep d0 t0 (ops : list (op D P)), Forall (op_ok decode) ops ->
-  forall sf out, run gen enc decode life rep (init d0 t0) ops = (sf, out) ->
+  forall rep d0 t0 (ops : list (op D P)) sf out,
+    Forall (op_ok decode) ops -> run gen enc decode life rep (init d0 t0) ops = (sf, out) ->
   forall b g l, file sf = Some (b, g) -> decode g = Some l ->
     b <= now sf /\ (exists d, alive (hist sf) (now sf) b d /\ l = gen d) /\
     (exists p d, In (b, d, Served p l false) out).
-Proof.
-  intros D L P gen enc decode life RT rep d0 t0 ops F sf out R.
-  pose proof (Good_run D L P gen enc decode life RT rep d0 t0 ops F) as G.
-  rewrite R in G. exact (proj1 (proj2 G)).
-Qed.
+Proof. exact invariant_all. Qed.
 Print Assumptions C10_invariant.
 
 Theorem C10_transparent :
@@ -78,11 +74,7 @@ Theorem C10_pinned_always_answers :
     (forall l, decode (enc l) = Some l) ->
   forall d0 t0 (ops : list (op D P)), Forall (@no_damage D P) ops ->
   forall e, In e (snd (run gen enc decode life false (init d0 t0) ops)) -> ~ is_crash D L P e.
-Proof.
-  intros D L P gen enc decode life RT d0 t0 ops F.
-  apply (pinned_never_crashes_undamaged D L P gen enc decode life RT ops (init d0 t0, [])); simpl; auto.
-  intros b g H. discriminate.
-Qed.
+Proof. exact pinned_always_answers. Qed.
 Print Assumptions C10_pinned_always_answers.
 
 (* non-vacuity: lifetime 2 s; a miss, a mutation, a hit that still shows the old
